@@ -464,6 +464,7 @@ func (t *taskState) marshalTargetOp(i int, po *prepOp) {
 		buf = append(make([]byte, 0, 16), "log:"...)
 	}
 	pre := len(buf)
+	prefix := string(buf)
 	b, err := p.Marshal(buf, tgt.Interface())
 	if len(b) >= pre {
 		t.noteBytes(tgt.Type().Elem(), b[pre:], err)
@@ -476,7 +477,7 @@ func (t *taskState) marshalTargetOp(i int, po *prepOp) {
 	if err != nil || (b == nil && exp == nil) {
 		return
 	}
-	if len(b) < pre || string(b[:pre]) != string(buf[:pre]) {
+	if len(b) < pre || string(b[:pre]) != prefix {
 		t.probe("other_property:marshal_result_is_not_prefix_plus_encoding") // C06 / C11, not a stale-state leak
 		return
 	}
